@@ -246,3 +246,22 @@ PROPS['C16'] = dict(
     level_text='generated orders, coefficients and input histories against an exact integer recurrence; filters and generators against invariants and the long double formula; sampling, not proof',
     level_note='trusts the __int128 reference recurrence; orders <= 8, histories <= 24 samples',
 )
+
+PROPS['C15'] = dict(
+    level='exploration',
+    rule='choice tape -> cubic/quintic/septic trajectory (duration 2^k, k in -10..10, or log-uniform real in [1e-3,1e3]; boundary values integers |v|<=1000 (all derivatives non-zero in 3/4 of the cases) or reals '
+         '2^-10..2^10) or a polynomial (n in 0..13 coefficients, integer or real, evaluation point). Oracle in exact rational arithmetic (GMP mpq, doubles convert exactly): pos(0)=p0 and vel(0)=v0 exactly, acc(0)/jer(0) '
+         'within 2 ulp; stored coefficients against the exactly solved boundary-value problem and end values of the stored polynomial against the requested ones within 16384*u*falling(deg,k)*S/T^k (S = sum of |boundary data| in position units); '
+         'accessor outputs = exact derivative coefficients of the stored polynomial (2 ulp), vel/acc/jer(x) = exact derivatives of the stored position polynomial within the Horner bound at 4 query times (inside, at and outside [0,T]); '
+         'a_poly_eval/evar = exact ascending/descending value within the Horner bound, n = 0 gives 0, evar(swap(a)) = eval(a) and swap twice = identity bit for bit. '
+         'non-trivial = all boundary derivatives non-zero and T != 1, or a polynomial with n >= 1; distinct = hash of decoded parameters',
+    assumptions=COMMON_ASSUME + ['durations in [2^-10, 2^10] and boundary magnitudes <= 2^10 (no intermediate overflow; the statement\'s "many orders of magnitude")',
+                                 'tolerance constant 16384 on u*scale is about 25x the largest ratio seen on the unchanged tree (evidence: metrics)'],
+    units=lambda tier, seed: [Unit('poly', 'exec/C15.cc', ['a.c', 'poly.c', 'trajpoly3.c', 'trajpoly5.c', 'trajpoly7.c'], libs=['-lgmpxx', '-lgmp'], tape_len=128)],
+    plan={'quick': dict(rc_procs=10, rc_cases=12000, fuzz_procs=6, fuzz_secs=25),
+          'thorough': dict(rc_procs=8, rc_cases=200000, fuzz_procs=8, fuzz_secs=240)},
+    tolerances={'end_values_and_coefficients': '16384*u*falling(deg,k)*S/T^k', 'horner': '4*(2n+6)*u*sum|c_i||x|^i', 'accessors': '2 ulp'},
+    technique='property-based testing against an exact rational (GMP) reference: exact solution of the boundary-value problem and exact derivatives of the stored polynomial; rapidcheck tapes + libFuzzer under ASan',
+    level_text='generated durations, boundary data and query times judged in exact rational arithmetic with stated rounding bounds; sampling, not proof',
+    level_note='trusts GMP; errors below the stated bounds are invisible',
+)
